@@ -338,6 +338,15 @@ func withEnv(vars map[string]*string) func() {
 	}
 }
 
+// envDetector is a caller's detector that asks the library for the
+// environment resource (the environment detector itself is not exported).
+type envDetector struct{}
+
+func (envDetector) Detect(ctx context.Context) (*resource.Resource, error) {
+	r, _ := resource.New(ctx, resource.WithFromEnv())
+	return r, nil
+}
+
 func runEnv(c EnvCase) ([]vk.Violation, vk.Info) {
 	rep := &reporter{}
 	var info vk.Info
@@ -464,6 +473,10 @@ func runEnv(c EnvCase) ([]vk.Violation, vk.Info) {
 	checkAccessors(rep, "New(WithFromEnv())", r, rmodel{modelOfSlice(r.Attributes()), r.SchemaURL()})
 	e := resource.Environment()
 	check("Environment()", e, nil, false, "")
+	// The environment detector as one detector of resource.Detect (attributes
+	// only: the wrapper keeps the error to itself so that Detect always merges).
+	d, _ := resource.Detect(context.Background(), envDetector{})
+	check("Detect(environment detector)", d, nil, false, "")
 
 	// --- the environment between two neighbours ---
 	// Documented: detectors are called in the order given, each produced
